@@ -27,6 +27,7 @@ RULE = (
     "documented-default snapshot. non-trivial = file with an unknown chunk, a dropped optional chunk, a truncated CVAL list or an interior empty position"
     ' Also (added while the seeded-change rounds of DESIGN section 9 ran): Also: nested containers of another version era than the file (inner_vers), loading from str / Path / offset streams / mmap / unbuffered files / quiet-seek streams, and every fixture decoded in freshly started interpreters (-O, -OO, -W error, -X dev, C locale, other first imports, logging opened before import).'
 )
+RULE += " Rounds 12-14 of DESIGN section 9 added: half of the unknown chunk ids are four-letter words that mean something to a program (init, data, self, read, None, ...); loading also through gzip / bz2 / lzma file objects."
 ASSUMPTIONS = list(refcodec.TRUSTED_BASE) + [
     "descriptions are plain data; only their generation reuses the recipe strategies, the bytes the reader sees come from the independent encoder",
     "only chunks with a documented default are dropped; enum values outside the enumeration are not well-formed and not generated",
